@@ -10,6 +10,7 @@ import (
 	"hash/fnv"
 	"os"
 	"strings"
+	"time"
 
 	vs "github.com/esimov/gogu/vsyncshim"
 )
@@ -23,7 +24,7 @@ type linType struct {
 }
 
 func linTypes() []linType {
-	return []linType{
+	types := []linType{
 		{"queue", nil, [][]string{{}, {"enqueue 1"}, {"enqueue 1", "enqueue 2"}},
 			[]string{"enqueue 1", "enqueue 2", "dequeue", "peek", "size", "search 1", "clear"},
 			[]string{"size", "dequeue", "dequeue", "dequeue", "dequeue", "size"}},
@@ -45,10 +46,27 @@ func linTypes() []linType {
 		{"trie", nil, [][]string{{}, {"put x61 7"}, {"put x6162 7"}},
 			[]string{"put x61 5", "put x6162 6", "get x61", "contains x6162", "size"},
 			[]string{"size", "keys", "get x61", "get x6162"}},
-		{"cache", []string{"-1", "0", "int"}, [][]string{{}, {"set 0 7 0"}},
-			[]string{"set 0 5 0", "set 1 6 -1", "get 0", "update 0 8 0", "delete 0", "count"},
+		// third initial state: an entry that has expired but has not been purged (1 ms lifetime, 3 ms real sleep)
+		{"cache", []string{"-1", "0", "int"}, [][]string{{}, {"set 0 7 0"}, {"set 0 7 1", "sleep 3"}},
+			[]string{"set 0 5 0", "set 1 6 -1", "get 0", "update 0 8 0", "delete 0", "count", "delexp"},
 			[]string{"count", "list", "get 0", "get 1"}},
 	}
+	// thresholds a change introduced into the source (VERIF_SIZES): a heap whose backing array is exactly full
+	for _, s := range extraSizes() {
+		if s > 20000 {
+			continue
+		}
+		vals := make([]int, s+1)
+		for i := range vals {
+			vals[i] = 3 + i%5
+		}
+		for i := range types {
+			if types[i].kind == "heap" {
+				types[i].inits = append(types[i].inits, []string{"fromslice " + ints(vals) + " lt"})
+			}
+		}
+	}
+	return types
 }
 
 type callRec struct {
@@ -58,6 +76,7 @@ type callRec struct {
 }
 
 func main() {
+	durUnit = time.Microsecond // cache durations: see k_cache (expired-but-unpurged initial state)
 	tier := "quick"
 	only := ""
 	for i := 1; i < len(os.Args); i++ {
